@@ -47,7 +47,7 @@ func freeRun(b *tv.Batch, run, pairs int) bool {
 		select {
 		case <-done:
 			return true
-		case <-time.After(500 * time.Millisecond):
+		case <-time.After(5 * time.Second):
 			return false
 		}
 	}
@@ -142,7 +142,7 @@ func freeStorm(b *tv.Batch, run int) bool {
 	go func() { wg.Wait(); close(done) }()
 	select {
 	case <-done:
-	case <-time.After(3 * time.Second):
+	case <-time.After(10 * time.Second):
 		ev("hung", tv.M{"what": "an Enqueue or Dequeue call never returned"})
 		return false
 	}
@@ -151,7 +151,7 @@ func freeStorm(b *tv.Batch, run int) bool {
 	ok := true
 	select {
 	case <-ran:
-	case <-time.After(time.Second):
+	case <-time.After(5 * time.Second):
 		ok = false // stranded: the quiescent record below is rejected by the contract
 	}
 	ev("quiescent", tv.M{"now": 0})
